@@ -861,4 +861,8 @@ class Orientation(Misorientation):
         all_dot_products = da.einsum(sum_over, M, symmetry.data)
         highest_dot_product = da.max(abs(all_dot_products), axis=-1)
 
-        return highest_dot_product
+        # Index the result as self.shape + other.shape, as dot_outer() does
+        order = tuple(range(other.ndim, other.ndim + self.ndim)) + tuple(
+            range(other.ndim)
+        )
+        return highest_dot_product.transpose(*order)
